@@ -463,7 +463,7 @@ enum Case {
 
 fn gen_cases(seed: u64, thorough: bool) -> Vec<Case> {
     let mut cs: Vec<Case> = vec![];
-    let scale: u64 = if thorough { 6 } else { 1 };
+    let scale: u64 = if thorough { 4 } else { 1 };
     // ---- fixed boundary corpus -------------------------------------------------------------
     let fixed_decode: Vec<Vec<u8>> = vec![
         vec![],
